@@ -3,7 +3,6 @@ package main
 import (
 	"fmt"
 	"go/ast"
-	"go/constant"
 	"go/token"
 	"path/filepath"
 	"sort"
@@ -108,7 +107,7 @@ func (k *kernel) define(ind int, id *ast.Ident, s string, kind vkind) *variable 
 	if !k.inLoop && k.mode == mKernel && (kind == vFloat || kind == vIntVar || kind == vSlice || kind == vBool) {
 		k.preLocals = append(k.preLocals, v)
 	}
-	if kind == vBool && (s == "true" || s == "false") && k.singleAssignment(id.Name) {
+	if kind == vBool && (s == "true" || s == "false") && len(k.inlining) == 0 && k.singleAssignment(id.Name) {
 		v.boolLit = s // a Bool that is a literal on every path (a nil test of a series, …): read as that literal
 	}
 	k.line(ind, "let %s : %s := %s", v.lean, v.typ(), s)
@@ -136,7 +135,7 @@ func (k *kernel) targetVar(v *variable, n ast.Node) *variable {
 		k.fail(n, "assignment to %s after a function literal has captured it", v.name)
 	}
 	if k.mode == mKernel && !k.inFinal {
-		if k.inLoop && !v.inLoop && !v.state {
+		if k.inLoop && !v.inLoop && !v.state && !v.loopLocal {
 			if valueKind(v.kind) && !v.param {
 				panic(needHidden{v.declPos}) // retried with this variable as a hidden state
 			}
@@ -194,6 +193,9 @@ func (k *kernel) assign(ind int, lhs ast.Expr, tok token.Token, rhs ast.Expr, n 
 	if fv != nil {
 		v = k.targetVar(fv, n)
 	} else {
+		if tok == token.ASSIGN {
+			k.firstWriteInLoop(id, rhs)
+		}
 		v = k.target(id, n)
 	}
 	var s string
@@ -224,13 +226,41 @@ func (k *kernel) assign(ind int, lhs ast.Expr, tok token.Token, rhs ast.Expr, n 
 	k.line(ind, "let %s : %s := %s", v.lean, v.typ(), s)
 }
 
+// ASSIGNED-BEFORE-READ: a float64 / bool / int variable declared before the loop that the loop body assigns (plain `=`) at its top
+// level — not inside a branch, an inner loop or a function literal, so the assignment is executed in every iteration that gets that
+// far and dominates everything after it — before anything in the loop has read it, whose new value does not depend on the old one,
+// and which the statements after the loop do not mention, never carries a value from one iteration to the next (nor out of the
+// loop): it is a local of `step`, not a hidden state. (Declaring such a variable inside the loop instead gives the same text.)
+func (k *kernel) firstWriteInLoop(id *ast.Ident, rhs ast.Expr) {
+	v := k.lookup(id.Name)
+	if v == nil || k.mode != mKernel || !k.inLoop || k.inFinal || k.clo != nil || k.loopVar == nil {
+		return
+	}
+	if v.inLoop || v.state || v.param || v.loopLocal || v.capturedAt || v.parent != nil || !(v.kind == vFloat || v.kind == vBool || v.kind == vIntVar) {
+		return
+	}
+	if len(k.frames) != 0 || k.sc.depth != k.loopVar.depth+1 || k.liveIn[v] || k.postNames[v.name] {
+		return
+	}
+	if rhs != nil && identsOf(rhs)[v.name] {
+		return
+	}
+	v.loopLocal = true
+}
+
 // a, b := f(…)  /  a, b = f(…)
 func (k *kernel) multiAssign(ind int, s *ast.AssignStmt) {
 	call, ok := s.Rhs[0].(*ast.CallExpr)
 	if !ok || (s.Tok != token.DEFINE && s.Tok != token.ASSIGN) {
 		k.fail(s, "multiple assignment")
 	}
+	var ws []*variable
+	if wr := k.writingCallee(call); wr != nil {
+		ws = k.writtenArgs(call, wr)
+		k.allowWrites = true
+	}
 	text, outs, ok := k.callTyped(call)
+	k.allowWrites = false
 	if !ok || len(k.callShapes(call, outs)) != len(s.Lhs) {
 		k.fail(s, "multiple assignment other than from a helper function with as many results")
 	}
@@ -238,6 +268,7 @@ func (k *kernel) multiAssign(ind int, s *ast.AssignStmt) {
 	tmp := k.fresh(fmt.Sprintf("call%d", k.ncall))
 	k.line(ind, "let %s : %s := %s", tmp, tupleTypeOf(outs), text)
 	k.bindResultsOf(ind, s, tmp, outs, k.callShapes(call, outs))
+	k.bindWritten(ind, s, tmp, len(outs)-len(ws), len(outs), ws)
 }
 
 // `a, b := tmp` / `a, b = tmp` for the results of a call held in the tuple `tmp`
@@ -446,7 +477,8 @@ func (k *kernel) stmts(list []ast.Stmt, ind int, rest func(ind int)) {
 			if len(s.Lhs) != 1 || len(s.Rhs) != 1 {
 				k.fail(s, "multiple assignment")
 			}
-			if call, ok := s.Rhs[0].(*ast.CallExpr); ok && k.structResult(call) { // x := f(…) / x = f(…) with one result of struct type
+			if call, ok := s.Rhs[0].(*ast.CallExpr); ok && (k.structResult(call) || k.writingCallee(call) != nil) {
+				// x := f(…) / x = f(…) with one result of struct type, or of a function that also writes into slice arguments
 				k.multiAssign(ind, s)
 				continue
 			}
@@ -530,6 +562,20 @@ func (k *kernel) stmts(list []ast.Stmt, ind int, rest func(ind int)) {
 					continue
 				}
 			}
+			if k.isCopyCall(call) {
+				k.copyStmt(ind, s, call)
+				continue
+			}
+			if call != nil && k.closureOf(call.Fun) == nil {
+				if r := k.resolveFunc(call.Fun); r != nil && k.mode == mKernel && k.inLoop && k.inlinable(r) { // a procedure that writes series
+					k.inlineProc(ind, s, call, r, func(ind int) { k.stmts(list[i+1:], ind, rest) })
+					return
+				}
+			}
+			if wr := k.writingCallee(call); wr != nil { // a procedure that writes into its slice arguments
+				k.writingCallStmt(ind, s, call, wr)
+				continue
+			}
 			if k.mode != mKernel || x == nil || (sel.Sel.Name != "Set" && sel.Sel.Name != "Set1") || len(call.Args) != 2 {
 				k.fail(s, "expression statement other than out.Set(idx, e)")
 			}
@@ -560,7 +606,11 @@ func (k *kernel) stmts(list []ast.Stmt, ind int, rest func(ind int)) {
 		case *ast.ForStmt:
 			switch {
 			case k.mode == mHelper && k.clo == nil && k.constBounded(s):
-				k.boundedFor(s, ind)
+				var next ast.Stmt
+				if i+1 < len(list) {
+					next = list[i+1]
+				}
+				k.boundedFor(s, ind, next)
 			case s.Init == nil && s.Post == nil:
 				k.whileFor(s, ind)
 			default:
@@ -572,8 +622,25 @@ func (k *kernel) stmts(list []ast.Stmt, ind int, rest func(ind int)) {
 				return
 			}
 		case *ast.RangeStmt:
+			if f := k.rangeAsFor(s); f != nil { // for i := range xs / for i, v := range xs: the three-clause loop it stands for
+				k.rangeFor(f, ind)
+				if k.deeper {
+					k.deeper = false
+					k.stmts(list[i+1:], ind+1, rest)
+					return
+				}
+				continue
+			}
 			k.rangeOver(s, ind)
 		case *ast.ReturnStmt:
+			if k.loopNest > 0 && k.retAsBreak[s] { // the statement after the loop returns the same: a `break`
+				if len(k.frames) > k.frameBase {
+					k.fail(s, "return inside a branch that is merged")
+				}
+				k.countLeaf()
+				k.line(ind, "%s", exitMark)
+				return
+			}
 			if k.mode != mHelper && k.mode != mWhole {
 				k.fail(s, "return statement inside the loop or a merged branch")
 			}
@@ -672,44 +739,64 @@ const (
 // `for i := 0; i < N; i++ { … }` with a constant bound inside a helper function, `i` not used in the body; `break` and
 // `continue` allowed: `boundedLoop body N carried`, where `carried` are the outer variables the body assigns and
 // `body : carried → carried × Bool` (true = break)
-func (k *kernel) boundedFor(s *ast.ForStmt, ind int) {
+func (k *kernel) boundedFor(s *ast.ForStmt, ind int, next ast.Stmt) {
 	if k.mode != mHelper {
 		k.fail(s, "nested loop")
 	}
-	init, _ := s.Init.(*ast.AssignStmt)
-	cond, _ := s.Cond.(*ast.BinaryExpr)
-	post, _ := s.Post.(*ast.IncDecStmt)
-	if init == nil || cond == nil || post == nil || init.Tok != token.DEFINE || len(init.Lhs) != 1 || len(init.Rhs) != 1 ||
-		cond.Op != token.LSS || post.Tok != token.INC {
-		k.fail(s, "loop header other than `for i := 0; i < N; i++`")
+	n, ok := k.constTrip(s)
+	if !ok || n > 1000000 {
+		k.fail(s, "loop that does not count a constant number of times, or uses its counter in the body")
 	}
-	iv, _ := init.Lhs[0].(*ast.Ident)
-	z, _ := init.Rhs[0].(*ast.BasicLit)
-	c, _ := cond.X.(*ast.Ident)
-	p, _ := post.X.(*ast.Ident)
-	if iv == nil || z == nil || z.Value != "0" || c == nil || p == nil || c.Name != iv.Name || p.Name != iv.Name || iv.Name == "_" {
-		k.fail(s, "loop header other than `for i := 0; i < N; i++`")
+	// RETURN IN THE LOOP: `return E` where the statement after the loop is `return E` (the same pure expressions) leaves the loop
+	// and returns what the statement after it returns — it is the `break` it is rendered as
+	var rets []*ast.ReturnStmt
+	nested := false
+	var scan func(n ast.Node, inner bool)
+	scan = func(n ast.Node, inner bool) {
+		ast.Inspect(n, func(x ast.Node) bool {
+			switch b := x.(type) {
+			case *ast.FuncLit:
+				return false
+			case *ast.ForStmt:
+				if x != n {
+					scan(b.Body, true)
+					return false
+				}
+			case *ast.RangeStmt:
+				if x != n {
+					scan(b.Body, true)
+					return false
+				}
+			case *ast.ReturnStmt:
+				if inner {
+					nested = true
+				}
+				rets = append(rets, b)
+			}
+			return true
+		})
 	}
-	bound, ok := k.constEnv().eval(cond.Y)
-	n, exact := int64(0), false
-	if ok && !bound.typed && bound.v.Kind() == constant.Int {
-		n, exact = constant.Int64Val(bound.v)
-	}
-	if !exact || n < 0 || n > 1000000 {
-		k.fail(s, "loop bound that is not an integer constant")
-	}
-	uses, returns := false, false
-	ast.Inspect(s.Body, func(x ast.Node) bool {
-		if id, ok := x.(*ast.Ident); ok && id.Name == iv.Name {
-			uses = true
+	scan(s.Body, false)
+	if len(rets) > 0 {
+		after, _ := next.(*ast.ReturnStmt)
+		ok := after != nil && !nested && len(after.Results) > 0
+		for _, r := range rets {
+			ok = ok && sameReturn(k.w.fset, r, after)
 		}
-		if _, ok := x.(*ast.ReturnStmt); ok {
-			returns = true
+		if ok {
+			for _, e := range after.Results {
+				ok = ok && pureValue(e)
+			}
 		}
-		return true
-	})
-	if uses || returns {
-		k.fail(s, "bounded loop whose body uses the loop variable or returns")
+		if !ok {
+			k.fail(s, "bounded loop whose body returns something other than what the statement after the loop returns")
+		}
+		if k.retAsBreak == nil {
+			k.retAsBreak = map[*ast.ReturnStmt]bool{}
+		}
+		for _, r := range rets {
+			k.retAsBreak[r] = true
+		}
 	}
 	f := &frame{depth: k.sc.depth, seen: map[*variable]bool{}}
 	k.frames = append(k.frames, f)
@@ -823,6 +910,15 @@ func tupleOfNames(names []string) string {
 		return names[0]
 	}
 	return "(" + strings.Join(names, ", ") + ")"
+}
+
+// the Lean names of variables
+func names2(vs []*variable) []string {
+	var out []string
+	for _, v := range vs {
+		out = append(out, v.lean)
+	}
+	return out
 }
 
 func tupleOf(vs []*variable) string {
@@ -1014,8 +1110,13 @@ func (k *kernel) leafReturn(ind int, r *ast.ReturnStmt) {
 		if len(k.results) != k.nres || k.nres == 0 {
 			k.fail(r, "return without values")
 		}
-		k.line(ind, "%s", k.wrap(tupleOf(flatVars(k.results))))
+		k.line(ind, "%s", k.wrap(tupleOfNames(append(names2(flatVars(k.results)), k.writtenNames()...))))
 		return
+	}
+	if len(r.Results) == 1 && len(k.writtenVars) > 0 {
+		if call, ok := r.Results[0].(*ast.CallExpr); ok && (k.callMayPanic(call) || len(k.w.flatTypes(k.resTypes)) > 1) {
+			k.fail(r, "return of a call with several results (or one that may panic) in a function that writes into a slice parameter")
+		}
 	}
 	if len(r.Results) == 1 {
 		if call, ok := r.Results[0].(*ast.CallExpr); ok && k.callMayPanic(call) { // return f(…) of a function that may panic
@@ -1048,9 +1149,15 @@ func (k *kernel) leafReturn(ind int, r *ast.ReturnStmt) {
 			vals = append(vals, k.structValues(e, st)...)
 			continue
 		}
+		if id, ok := unparen(e).(*ast.Ident); ok && k.mode == mHelper && k.clo == nil && k.resTypes[i] == "List α" {
+			if v := k.lookup(id.Name); v != nil && v.param {
+				// the caller's variable and the result would share storage: later writes through one would show through the other
+				k.fail(r, "helper function that returns its slice parameter %s", id.Name)
+			}
+		}
 		vals = append(vals, k.valueOf(e, k.resTypes[i]))
 	}
-	k.line(ind, "%s", k.wrap(tupleOfNames(vals)))
+	k.line(ind, "%s", k.wrap(tupleOfNames(append(vals, k.writtenNames()...))))
 }
 
 // an expression of the given Lean type
@@ -1115,6 +1222,12 @@ func (k *kernel) translateHelper(h *helperDef) string {
 		}
 		params = append(params, v)
 	}
+	for _, wi := range k.w.writtenParams(&funcRef{k.p, k.file, fn}) {
+		if wi >= len(params) || params[wi].kind != vSlice || params[wi].name == "_" {
+			k.fail(fn, "internal: written parameter %d is not a named []float64", wi)
+		}
+		k.writtenVars = append(k.writtenVars, params[wi])
+	}
 	var body strings.Builder
 	k.out = &body
 	gouts, _ := k.goResultTypes(&funcRef{k.p, k.file, fn})
@@ -1139,7 +1252,7 @@ func (k *kernel) translateHelper(h *helperDef) string {
 			k.fail(fn, "missing return")
 		}
 		k.countLeaf()
-		k.line(ind, "%s", k.wrap(tupleOf(flatVars(k.results))))
+		k.line(ind, "%s", k.wrap(tupleOfNames(append(names2(flatVars(k.results)), k.writtenNames()...))))
 	})
 	// an int parameter the body does not use is not a parameter of the definition (the time-step counter of a kernel)
 	var kept []*variable
